@@ -96,7 +96,7 @@ def matmul_k1(c):
 
 def run(tier, seed):
     ck = Check("C12", tier, seed)
-    ck.preds.update(c12_binary_column_with_1x1=binary_column_with_1x1)
+    pass  # no open findings
     quick = tier == "quick"
     ck.add_mc(vlib.tlc_model_check("ImplSimd", "MC_ImplSimd", workers=4))
     cases = cases_for(ck, quick)
